@@ -116,6 +116,7 @@ type LoopAnn struct {
 type CallAnn struct {
 	Callee  string // textual name, e.g. "gtp5gnl.CreateQEROID" or "s.rnode.driver.CreateFAR" suffix match
 	Ordinal int    // 0 = all
+	Text    string // ~text: only call sites whose source text contains this token (robust against reordering)
 	After   bool
 	Asserts []Clause
 	Assumes []Clause
@@ -1244,6 +1245,10 @@ func readSpecFile(path string, isSpec bool) (*SpecFile, error) {
 				ca := &CallAnn{Line: g.line, After: w == "after"}
 				if i := strings.Index(r, "#"); i >= 0 {
 					fmt.Sscanf(r[i+1:], "%d", &ca.Ordinal)
+					r = r[:i]
+				}
+				if i := strings.Index(r, "~"); i >= 0 {
+					ca.Text = strings.TrimSpace(r[i+1:])
 					r = r[:i]
 				}
 				ca.Callee = strings.TrimSpace(r)
